@@ -118,6 +118,7 @@ def run(tier):
         k = e['e'] + ':' + e.get('fmt', '')
         kinds[k] = kinds.get(k, 0) + 1
     cov['reader_events'] = kinds
+    cov['binding_demonstration_readers'] = rf.render_binding_demo(events, 'c12b')
     return conclude(PROP, tier, viols, cov, t0, pf.ASSUMPTIONS + [
         'readers: when several rules derive the node category any of their labels is accepted; formats with a head field (auto) keep the head from the file',
         'Tree.of_nltk_tree is fed a minimal stand-in object exposing label() and indexing (nltk is not installed)',
